@@ -149,6 +149,10 @@ ApplyAt(S, T, v, op) ==
          \* replace the unknown set while still holding the slice GetUnknown returned before:
          \* returns what that slice shows afterwards (must still be the old bytes)
          [] op.op = "SetUnknownHold" -> R([v EXCEPT !.u = op.u], Ret("bytes", v.u))
+         \* the unknown bytes handed to ANOTHER message of the type (SetUnknown stores the slice it is
+         \* given), then emptied here and refilled by appending to what GetUnknown returns (the idiom
+         \* proto.Merge uses): returns what the other message shows afterwards -- still the old bytes
+         [] op.op = "UnknownHandover" -> R([v EXCEPT !.u = op.u], Ret("bytes", v.u))
          [] op.op = "GetUnknown" -> R(v, Ret("bytes", v.u))
          [] op.op = "SetUnknown" -> R([v EXCEPT !.u = op.u], OK)
          [] op.op = "IsValid" -> R(v, Bool(TRUE))
@@ -227,6 +231,11 @@ ApplyAt(S, T, v, op) ==
               IF fd.card # "map" THEN R(v, PANIC)
               ELSE LET m == MapOf(v, fd)
                    IN R(SetF(v, fd, (op.k :> (IF fd.vk = "message" THEN EmptyMsg ELSE op.x)) @@ [kk \in (DOMAIN m) \ {op.k} |-> m[kk]]), OK)
+         \* w = NewField(fd); Set(fd, w); w.Set(k, x): store first, fill afterwards -- the stored map is
+         \* the value's map in both references, so the entry is in the message
+         [] op.op = "MSetFill" ->
+              IF fd.card # "map" THEN R(v, PANIC)
+              ELSE R(SetF(v, fd, (op.k :> (IF fd.vk = "message" THEN EmptyMsg ELSE op.x))), OK)
          [] op.op = "MRange" -> R(v, Ret("keys", SortedKeys(fd.kk, MapOf(v, fd))))
          [] op.op = "MNewValue" -> R(v, ElemZero(fd.vk))
          [] OTHER -> R(v, Ret("unknown-op", 0))
